@@ -278,6 +278,7 @@ def build_region(r):
                 coarse = bool(r.opts.get("_coarse"))
                 merged = merge.merge3(base, ann, cur, r.dropped, coarse=coarse)
                 merged, r.ghost_completed = merge.complete_ghost_args(ann, merged)
+                merged, _np = merge.prune_dangling_ghost(ann, merged)
                 try:
                     back = erase.erase(merged)
                 except (erase.EraseError, lex.LexError):
@@ -287,6 +288,7 @@ def build_region(r):
                     r.dropped = []
                     merged = merge.merge3(base, ann, cur, r.dropped, coarse=True)
                     merged, r.ghost_completed = merge.complete_ghost_args(ann, merged)
+                    merged, _np = merge.prune_dangling_ghost(ann, merged)
                     back = erase.erase(merged)
                 if back != cur:
                     raise Inconclusive("erasure check failed after merge for %s:\n%s" % (r.name, _tokdiff(back or [], cur)))
